@@ -432,18 +432,21 @@ def worker_main(inp, outp):
         return out
 
     def build_msg(v):
+        # a name is a dotted str or a sequence of labels (JSON list; a tuple when v["tuple"])
+        def nm(n):
+            return tuple(n) if (isinstance(n, list) and v.get("tuple")) else n
         m = dns.DnsMessage(v["id"], v["flags"])
         for n, t, c in v["qs"]:
-            m.questions.append(dns.DnsQuestion(n, t, c))
+            m.questions.append(dns.DnsQuestion(nm(n), t, c))
         for s, dst in (("an", m.answers), ("ns", m.authorities), ("ar", m.resources)):
             for n, t, c, ttl, rd in v[s]:
                 if rd[0] == "RAW":
                     val = bytes.fromhex(rd[1])
                 elif rd[0] == "PTR":
-                    val = rd[1]
+                    val = nm(rd[1])
                 else:
                     raise TypeError("unsupported rd for pack")
-                dst.append(dns.DnsResource(n, t, c, ttl, 0, val))
+                dst.append(dns.DnsResource(nm(n), t, c, ttl, 0, val))
         return m
 
     def do(job):
@@ -459,6 +462,8 @@ def worker_main(inp, outp):
             return bytes(dns.qname_encode(bytes.fromhex(job["s"]).decode("utf-8"))).hex()
         if op == "name_rt":
             arg = job["labels"] if "labels" in job else job["name"]
+            if job.get("seq") == "tuple":
+                arg = tuple(arg)
             enc = bytes(dns.qname_encode(arg))
             buf = io.BytesIO(enc + bytes.fromhex(job["rest"]))
             r = dns.parse_domain_name(buf)
@@ -536,14 +541,24 @@ def run_worker(jobs, tag="w"):
 # Checks -> jobs -> verdicts
 # ==========================================================================================
 
-def msg_for_pack(m):
-    """Message value (labels) -> what the worker builds (dotted strs)."""
-    out = {"id": m["id"], "flags": m["flags"], "qs": [[dotted(n), t, c] for n, t, c in m["qs"]]}
+def msg_for_pack(m, names_as="nfc"):
+    """Message value (labels) -> what the worker builds.  names_as: "nfc" = dotted strs, NFC (what the
+    Coq model is given); "str" = dotted strs, text exactly as generated (possibly decomposed);
+    "list" / "tuple" = every name as a sequence of labels, text exactly as generated."""
+    if names_as == "nfc":
+        nm = dotted
+    elif names_as == "str":
+        nm = ".".join
+    else:
+        nm = list
+    out = {"id": m["id"], "flags": m["flags"], "qs": [[nm(n), t, c] for n, t, c in m["qs"]]}
     for s in ("an", "ns", "ar"):
         rs = []
         for n, t, c, ttl, rd in m[s]:
-            rs.append([dotted(n), t, c, ttl, ["PTR", dotted(rd[1])] if rd[0] == "PTR" else rd])
+            rs.append([nm(n), t, c, ttl, ["PTR", nm(rd[1])] if rd[0] == "PTR" else rd])
         out[s] = rs
+    if names_as == "tuple":
+        out["tuple"] = True
     return out
 
 
@@ -552,11 +567,11 @@ def jobs_for(chk):
     if k == "decode":
         return [{"op": "unpack", "data": chk["data"]}]
     if k == "encode":
-        return [{"op": "pack", "msg": msg_for_pack(chk["msg"])}]
+        return [{"op": "pack", "msg": msg_for_pack(chk["msg"], chk.get("names_as", "str"))}]
     if k == "roundtrip":
-        return [{"op": "rt", "msg": msg_for_pack(chk["msg"])}]
+        return [{"op": "rt", "msg": msg_for_pack(chk["msg"], chk.get("names_as", "str"))}]
     if k == "name-rt":
-        return [{"op": "name_rt", "labels": chk["labels"], "rest": chk["rest"]}]
+        return [{"op": "name_rt", "labels": chk["labels"], "rest": chk["rest"], "seq": chk.get("seq", "list")}]
     if k == "str-rt":
         return [{"op": "name_rt", "name": chk["name"], "rest": chk["rest"]}]
     if k == "name-decode":
@@ -628,12 +643,16 @@ def judge(chk, rs):
         if not why:
             name, tell, enc = r["ok"]
             if k == "name-rt":
-                want, labels = dotted(chk["labels"]), chk["labels"]
+                labels = chk["labels"]
+                if labels and labels[-1] == "":         # already rooted: the root label is not repeated
+                    labels = labels[:-1]
             else:
-                want, labels = unicodedata.normalize("NFC", chk["name"]), ref_split(chk["name"])
-            ref = ref_encode_name(labels)
+                labels = ref_split(chk["name"])
+            want = dotted(labels)
+            ref = ref_encode_name(labels)                 # NFC per label (RFC 6763 4.1.3), UTF-8, RFC 1035 3.1
             if enc != ref.hex():
-                out.append(("C04:dns:encode-mismatch", "qname_encode differs from RFC 1035 3.1: %s != %s" % (enc[:120], ref.hex()[:120])))
+                out.append(("C04:dns:encode-mismatch", "qname_encode(%s) differs from the RFC 1035 3.1 / RFC 6763 4.1.3 (NFC) encoding: %s != %s" % (
+                    chk.get("seq", "list") if k == "name-rt" else "str", enc[:120], ref.hex()[:120])))
             if name != want:
                 why = "name %r != %r" % (name, want)
             elif tell != len(enc) // 2:
@@ -667,7 +686,40 @@ def judge(chk, rs):
 
 ASCII = "abcdefghijklmnopqrstuvwxyzABCDEFGHIJKLMNOPQRSTUVWXYZ0123456789-"
 WIDE = ["é", "ü", "ß", "ñ", "日", "本", "語", "Ω", "ж",
-        "\U0001F600", "\U0001D11E", "’", " ", "_", "Å", "ก"]
+        "\U0001F600", "\U0001D11E", "’", " ", "_", "Å", "ก",
+        "ö", "ç", "が", "ぎ", "\uac00", "\u1ec7", "\u01d6"]      # the last rows have canonical decompositions
+FORMS = ("nfc", "nfd", "mixed")
+
+
+def reform(rng, s, form):
+    """The same text (canonically equivalent, so the same NFC) written composed, fully decomposed,
+    or mixed: per character composed / decomposed / a singleton equivalent (ANGSTROM SIGN, OHM SIGN)."""
+    if form == "nfc":
+        return s
+    if form == "nfd":
+        return unicodedata.normalize("NFD", s)
+    out = []
+    for ch in s:
+        r = rng.random()
+        if r < 0.5:
+            out.append(unicodedata.normalize("NFD", ch))
+        elif ch == "Å" and r < 0.8:
+            out.append("\u212b")
+        elif ch == "Ω" and r < 0.8:
+            out.append("\u2126")
+        else:
+            out.append(ch)
+    return "".join(out)
+
+
+def reform_msg(rng, m, form):
+    """Every name of a message value rewritten in the given form."""
+    def nm(n):
+        return [reform(rng, x, form) for x in n]
+    out = dict(m, qs=[[nm(n), t, c] for n, t, c in m["qs"]])
+    for s in ("an", "ns", "ar"):
+        out[s] = [[nm(n), t, c, ttl, (rd[:-1] + [nm(rd[-1])] if rd[0] in ("PTR", "SRV") else rd)] for n, t, c, ttl, rd in m[s]]
+    return out
 
 
 def gen_label(rng, maxlen=63, dots=False):
@@ -1052,22 +1104,48 @@ def build_checks(ctx, scale):
     rng = ctx.rng
     checks = []
     # --- names: encoder -> decoder, label boundaries
-    for i in range(120 * scale):
-        n = [gen_label(rng, dots=(i % 7 == 0)) for _ in range(rng.choice([1, 1, 2, 3, 5]))]
-        if i == 0:
-            n = []
-        if i == 1:
-            n = ["a" * 63, "é" * 31 + "a", "\U0001F600" * 15 + "abc"]
-        if sum(len(lab_bytes(x)) + 1 for x in n) > 250:
-            n = n[:2]
+    # Every name is presented to qname_encode both as a sequence of labels (list / tuple - the documented
+    # form for labels that contain dots) and as a dotted str, with its text composed, decomposed or mixed;
+    # the reference normalises each label to NFC (RFC 6763 4.1.3).
+    nfd = lambda x: unicodedata.normalize("NFD", x)   # noqa: E731
+    fixed = [
+        [],
+        ["a" * 63, "é" * 31 + "a", "\U0001F600" * 15 + "abc"],
+        ["Bu\u0308cher", "local"],                                   # decomposed umlaut
+        [nfd("Café. En Español"), "_http", "_tcp", "local"],         # decomposed instance label with a dot
+        [nfd("がぎぐげご"), "local"],
+        [nfd("é" * 31), "local"],                                    # 62 bytes composed, 93 decomposed
+        [nfd("é" * 31) + "a", nfd("が" * 21)],                       # exactly 63 bytes only when composed
+        ["\u1100\u1161" * 21, "\u212b" * 31 + "a"],                  # conjoining jamo -> 21 syllables = 63 bytes; ANGSTROM SIGN -> Å
+        ["o\u0323\u0302", "o\u0302\u0323", "\u1ed9"],                # combining marks in both orders, one NFC
+        ["x", "local", ""],                                          # already rooted
+    ]
+    for i in range(140 * scale):
+        form = FORMS[i % 3]
+        if i < len(fixed):
+            n = fixed[i]
+        else:
+            n = [reform(rng, gen_label(rng, dots=(i % 7 == 0)), form) for _ in range(rng.choice([1, 1, 2, 3, 5]))]
+            if sum(len(lab_bytes(x)) + 1 for x in n) > 250:
+                n = n[:2]
+            if rng.random() < 0.12:
+                n = n + [""]                                         # the caller supplied the root label itself
         rest = bytes(rng.randrange(256) for _ in range(rng.choice([0, 0, 1, 5])))
-        checks.append({"part": PART, "kind": "name-rt", "labels": n, "rest": rest.hex()})
-    for i in range(80 * scale):
+        for seq in (("list", "tuple") if i < len(fixed) else (("list", "tuple")[i % 2],)):
+            checks.append({"part": PART, "kind": "name-rt", "labels": n, "seq": seq, "form": form if i >= len(fixed) else "fixed",
+                           "rest": rest.hex()})
+        if i < len(fixed) and name_ok_for_str([x for x in n if x]):
+            checks.append({"part": PART, "kind": "str-rt", "name": ".".join(n), "form": "fixed", "rest": rest.hex()})
+    for i in range(90 * scale):
         n = gen_name(rng)
         if not name_ok_for_str(n):
             continue
+        form = FORMS[i % 3]
+        name = ".".join(reform(rng, x, form) for x in n)
+        if n and rng.random() < 0.12:
+            name += "."                                              # already rooted
         rest = bytes(rng.randrange(256) for _ in range(rng.choice([0, 2])))
-        checks.append({"part": PART, "kind": "str-rt", "name": dotted(n), "rest": rest.hex()})
+        checks.append({"part": PART, "kind": "str-rt", "name": name, "form": form, "rest": rest.hex()})
     # --- messages written by the reference encoder in three styles
     for i in range(260 * scale):
         m = gen_message(rng, big=(i % 23 == 0))
@@ -1129,10 +1207,12 @@ def build_checks(ctx, scale):
             checks.append({"part": PART, "kind": "decode", "data": data.hex(), "expect": expected_observation(m, lens),
                            "mode": mode, "pointers": enc.pointers, "chains": enc.chains, "far": size})
     # --- what pack can write symmetrically
+    # (names handed to DnsQuestion / DnsResource as dotted strs, lists or tuples of labels, text in all three forms)
     for i in range(150 * scale):
-        m = gen_message(rng, symmetric=True, big=(i % 29 == 0))
-        checks.append({"part": PART, "kind": "encode", "msg": m})
-        checks.append({"part": PART, "kind": "roundtrip", "msg": m})
+        form, names_as = FORMS[i % 3], ("str", "list", "tuple")[(i // 3) % 3]
+        m = reform_msg(rng, gen_message(rng, symmetric=True, big=(i % 29 == 0)), form)
+        checks.append({"part": PART, "kind": "encode", "msg": m, "names_as": names_as, "form": form})
+        checks.append({"part": PART, "kind": "roundtrip", "msg": m, "names_as": names_as, "form": form})
     # --- TXT records on their own (documented encodings of a dict)
     for i in range(60 * scale):
         ents = gen_txt(rng)
@@ -1158,21 +1238,22 @@ def extra_model_jobs(ctx, scale):
         labs = []
         for _ in range(rng.choice([1, 2, 3])):
             r = rng.random()
-            if r < 0.3:     # over-long, multi-byte at the boundary
-                ch = rng.choice(["a", "é", "日", "\U0001F600"])
-                labs.append("".join(rng.choice([ch, "b"]) for _ in range(rng.choice([20, 40, 64, 70]))))
+            if r < 0.3:     # over-long, multi-byte at the boundary; fits before but not after NFC (U+0958 -> U+0915 U+093C)
+                ch = rng.choice(["a", "é", "日", "\U0001F600", "e\u0301", "\u0958", "が"])
+                labs.append(reform(rng, "".join(rng.choice([ch, "b"]) for _ in range(rng.choice([20, 21, 31, 32, 40, 64, 70]))), rng.choice(FORMS)))
             elif r < 0.4:
                 labs.append("")
             else:
-                labs.append(gen_label(rng, dots=True))
-        jobs.append(("qenc", {"op": "qenc", "labels": [unicodedata.normalize("NFC", x).encode("utf-8").hex() for x in labs]}))
+                labs.append(reform(rng, gen_label(rng, dots=True), rng.choice(FORMS)))
+        jobs.append(("qenc", {"op": "qenc", "labels": [x.encode("utf-8").hex() for x in labs],
+                              "nfc": [lab_bytes(x).hex() for x in labs]}))
     strs = ["", ".", "a.", ".a", "a..b", "_x._tcp", "_x._tcp.", "._x._tcp.local", "a.b._x._tcp.local", "..x._y._udp.",
             "_a._b._tcp.local", "x._tcp._udp.local", "x._y._TCP.local", "_._tcp", "a._x._tcpx.local", "local", "a.b.c.d.e"]
     for i in range(40 * scale):
-        parts = [rng.choice(["a", "bc", "_x", "_tcp", "_udp", "_TCP", "", "local", "é", "x y", "_"]) for _ in range(rng.randint(0, 6))]
+        parts = [rng.choice(["a", "bc", "_x", "_tcp", "_udp", "_TCP", "", "local", "é", "e\u0301", "\u212b", "x y", "_"]) for _ in range(rng.randint(0, 6))]
         strs.append(".".join(parts))
     for s in strs:
-        jobs.append(("qencs", {"op": "qencs", "s": unicodedata.normalize("NFC", s).encode("utf-8").hex()}))
+        jobs.append(("qencs", {"op": "qencs", "s": s.encode("utf-8").hex(), "nfc": lab_bytes(s).hex()}))
     for i in range(80 * scale):
         n = rng.randint(0, 8)
         chunks = bytearray()
@@ -1249,7 +1330,8 @@ def run_part(ctx):
         if c["kind"] == "decode" and c.get("chains"):
             sample = {"kind": "decode", "mode": c["mode"], "data": c["data"][:160], "pointers": c["pointers"], "chains": c["chains"]}
         ctx.case(canon, nontrivial=nontriv, sample=sample)
-        ctx.count("dns:" + c["kind"] + (":" + c["mode"] if "mode" in c else "") + (":far-pointers" if "far" in c else ""))
+        ctx.count("dns:" + c["kind"] + (":" + c["mode"] if "mode" in c else "") + (":far-pointers" if "far" in c else "")
+                  + (":" + c.get("names_as", c.get("seq", "str")) + "/" + c["form"] if "form" in c else ""))
         if c.get("chains"):
             ctx.count("dns:with-pointer-chain")
     for (kind, d), r in zip(hostile, results[base_hostile:base_hn]):
@@ -1317,7 +1399,7 @@ def run_part(ctx):
             rr = {"ok": [r["ok"][0].encode("utf-8").hex(), r["ok"][1]]}
             add_name(data, 0, rr, {"name": data.hex(), "pos": 0})
         elif k in ("encode",):
-            v = msg_for_pack(c["msg"])
+            v = msg_for_pack(c["msg"], "nfc")
             x = coq_expect_bytes(r)
             if x is not None and ("ok" not in r or len(r["ok"]) <= 600):
                 groups["check_pack"][1].append(("(%s, %s)" % (coq_msg(v), x), {"pack": v}))
@@ -1331,11 +1413,11 @@ def run_part(ctx):
                 groups["check_txt"][1].append(("(%s, 0%%nat, %d%%nat, %s)" % (coq_bytes(bytes.fromhex(c["data"])), len(c["data"]) // 2, x), {"txt": c["data"]}))
     for (kind, job), r in zip(model_jobs, results[base_model:base_hostile]):
         if kind == "qenc" and "ok" in r:
-            labs = [bytes.fromhex(x) for x in job["labels"]]
+            labs = [bytes.fromhex(x) for x in job["nfc"]]
             groups["check_qenc"][1].append(("([%s], %s)" % ("; ".join(coq_bytes(x) for x in labs), coq_bytes(bytes.fromhex(r["ok"]))), job))
             ctx.count("dns:model:qname_encode(list)")
         elif kind == "qencs" and "ok" in r:
-            groups["check_qenc_str"][1].append(("(%s, %s)" % (coq_bytes(bytes.fromhex(job["s"])), coq_bytes(bytes.fromhex(r["ok"]))), job))
+            groups["check_qenc_str"][1].append(("(%s, %s)" % (coq_bytes(bytes.fromhex(job["nfc"])), coq_bytes(bytes.fromhex(r["ok"]))), job))
             ctx.count("dns:model:qname_encode(str)")
         elif kind == "txt":
             x = coq_expect(r, canon_txt_result)
@@ -1371,7 +1453,10 @@ def run_part(ctx):
         "reference DNS encoder/decoder in harness/c04_dns.py written from RFC 1035 3.1/4.1/4.1.4, RFC 2782, RFC 6763 4.1/6",
     ]
     ctx.assumptions += [
-        "DNS: NFC normalisation (unicodedata) and IDNA decoding of 'xn--' labels are outside the model; labels are UTF-8 byte strings",
+        "DNS: the Coq model takes labels AFTER NFC normalisation (UTF-8 byte strings); the NFC step of qname_encode is judged by the "
+        "oracle only: every generated name is handed to the implementation composed, decomposed and mixed, as dotted str, list and "
+        "tuple of labels (also through DnsQuestion/DnsMessage.pack), and compared with the reference encoder, which normalises each "
+        "label to NFC (RFC 6763 4.1.3); the model is given the NFC bytes of the same labels. IDNA decoding of 'xn--' labels is outside the model",
         "DNS: io.BytesIO.read returns at most what is left and never raises; struct.unpack raises struct.error on a short buffer",
         "DNS: assert statements are active (python is not run with -O)",
     ]
